@@ -255,9 +255,7 @@ func cmdRun(args []string) int {
 			return 2
 		}
 		for _, k := range kfs {
-			if k.Property == *prop {
-				known[k.ID] = k
-			}
+			known[k.ID] = k // a harness of one property may carry assertions (and findings) of a related one
 		}
 	}
 
@@ -416,7 +414,7 @@ func cmdRun(args []string) int {
 				if kf, ok := known[v.Known]; ok && v.Known != "" && kf.Status == "known" {
 					if !knownPrinted[v.Known] {
 						knownPrinted[v.Known] = true
-						fmt.Printf("KNOWN-FINDING: property=%s %s [%s] witness=%s\n", *prop, kf.What, kf.ID, modelString(v.Model))
+						fmt.Printf("KNOWN-FINDING: property=%s %s [%s] witness=%s\n", kf.Property, kf.What, kf.ID, modelString(v.Model))
 					}
 					continue
 				}
